@@ -36,7 +36,8 @@ def _trace_files():
 
 
 def gen_sched(T, tier, n_hint=40):
-    policy = T.weighted([(4, "random"), (2, "pct"), (2, "starve"), (1, "rr")])
+    policy = T.weighted([(4, "random"), (2, "pct"), (2, "starve"), (1, "rr"),
+                         (3, "burst")])
     p_timer = T.choice([[0, 1], [1, 50], [1, 5], [3, 5]])
     if tier == "quick":
         p_pre = T.weighted([(18, [0, 1]), (1, [1, 20]), (1, [3, 10])])
@@ -386,6 +387,16 @@ class Engine:
             res["saver"] = saver
             tok = W.TokenizerWorker(rd, observers, **lkw, **kw)
             res["tok"] = tok
+            # what the tokenizer itself receives (split() reads through
+            # tok.read): recorded to compare with what was saved
+            tseen = res["tok_seen"] = []
+            tok_read = tok.read
+
+            def rec_tok_read():
+                b = tok_read()
+                tseen.append(b)
+                return b
+            tok.read = rec_tok_read
             if stop is not None:
                 arm_stop()
             tok.start_all()
@@ -437,7 +448,8 @@ class Engine:
             if sim.counters.get(k):
                 faults[k] = sim.counters[k]
         out = {"violation": None, "error": None, "steps": sim.steps,
-               "simtime": sim.now, "sig": sim.sig, "faults": faults,
+               "simtime": sim.now, "sig": sim.sig,
+               "states": sim.state_hashes, "faults": faults,
                "probes": {}, "nontrivial": False}
         h = hashlib.blake2b(repr(sim.log).encode(), digest_size=8)
         out["digest"] = h.hexdigest()
@@ -634,6 +646,27 @@ class Engine:
             for t in sim.threads:
                 if t.state != sched.DONE:
                     return V("C14.1", "thread %s not finished" % t.role)
+            # ---- C14.6 the stop takes effect: once main has published the
+            # request and is waiting for the tokenizer (its first join after
+            # the request), at most the read in flight plus two more may be
+            # started - not the rest of the stream
+            jseq = None
+            for e in sim.log:
+                if e[0] > res["stop_seq"] and e[1] == "main" \
+                        and e[2] == "join" \
+                        and str(e[3]).startswith("TokenizerWorker"):
+                    jseq = e[0]
+                    break
+            if jseq is not None:
+                late = sum(1 for e in sim.log
+                           if e[0] > jseq and e[2] == "src.read")
+                res["_late_reads"] = late
+                if late > 3:
+                    return V("C14.6", "%d source reads were started after "
+                             "the stop request had been published and main "
+                             "was already waiting for the tokenizer (the "
+                             "request was ignored or lost)" % late,
+                             "C14.6:stop_ignored")
             if saver is not None:
                 v = self._judge_saver(sc, res, served, saver, V, "C14.4")
                 if v is not None:
@@ -664,6 +697,12 @@ class Engine:
             return V(clause, "saved stream has %d bytes, source served %d; %s"
                      % (len(d), len(served), _first_diff_bytes(d, served)),
                      clause + ":data")
+        tseen = b"".join(b for b in res.get("tok_seen", []) if b is not None)
+        if res.get("tok_seen") is not None and tseen != d:
+            return V(clause, "the saved stream holds %d bytes but the "
+                     "tokenizer received %d bytes (a block was saved that "
+                     "the tokenizer never saw, or vice versa)" % (
+                         len(d), len(tseen)), clause + ":tok_seen")
         nwrites = 0
         return None
 
